@@ -63,7 +63,7 @@ Cell(op, key, thc, linc, hemi, dir, thc2, linc2, jac) ==
 \* deviation seen here is a deviation of the BUNDLE code: Taylor branch, generic angles, two magnitudes
 Ths == << "zero", "small", "generic" >>
 OpsJ == {"compose", "inverse", "between", "rplus", "lplus", "rminus", "lminus", "log", "exp", "act"}
-Ops0 == {"transform", "jacs", "adj", "belem"}
+Ops0 == {"transform", "jacs", "adj", "belem", "bwrite"}
 CellsOf(lay) ==
   { Cell(op, KeyOf(lay), Ths[i], IF i = 2 THEN "1e3" ELSE "1", "any", "generic", Ths[4 - i], "1", 1) : op \in OpsJ, i \in 1..3 }
   \cup { Cell(op, KeyOf(lay), Ths[i], IF i = 3 THEN "1e3" ELSE "1", "any", "generic", "generic", "1", 0) : op \in Ops0, i \in 1..3 }
